@@ -731,12 +731,15 @@ section X3
 variable {α : Type} [Add α] [Sub α] [Min α]
 
 /-- share of a footprint of width `w` (left edge `le`, in detector-bin units) that falls into its first bin
-    `floor(le)`, AS CODED: `to_next = minimum(ceil(left_edge) − left_edge, w)` (`cl` = ceil) -/
-def x3ToNextCoded (cl : α → Int) (ofInt : Int → α) (w le : α) : α := min (ofInt (cl le) - le) w
+    `floor(le)`, as coded (since 883e83f): `to_next = minimum(floor(left_edge) + 1 − left_edge, w)` -/
+def x3ToNext (fl : α → Int) (ofInt : Int → α) (one w le : α) : α := min (ofInt (fl le) + one - le) w
 
-/-- the DOCUMENTED share: distance from the left edge to the next bin edge, `floor(le) + 1 − le ∈ (0, 1]`, capped
-    by the width (the form `XRayTransform2D` uses: `1 − (Px − floor(Px))`) -/
-def x3ToNextDoc (fl : α → Int) (ofInt : Int → α) (one w le : α) : α := min (ofInt (fl le) + one - le) w
+/-- the DOCUMENTED share: length of the overlap of the footprint `[le, le + w]` with the bin `[floor le, floor le + 1]`
+    (detector pixel `i` covers `[i, i + 1)`) -/
+def x3Overlap (fl : α → Int) (ofInt : Int → α) (one w le : α) : α := min (ofInt (fl le) + one) (le + w) - le
+
+/-- the formula of the tree before 883e83f: `minimum(ceil(left_edge) − left_edge, w)` (`cl` = ceil) -/
+def x3ToNextCeil (cl : α → Int) (ofInt : Int → α) (w le : α) : α := min (ofInt (cl le) - le) w
 
 end X3
 
